@@ -17,6 +17,15 @@ spec -> code (model-based testing with TLC as the oracle):
    LoggingMonitor write the log, munge.write_*_file write the parameter files, and compares what
    munge.logfile_reader / read_history / read_raw_file / read_import return (NaN-aware, exact).
 
+ * grown parts (same two modules): the Null kind (one python variable holds monitors.Null(): no-op receiver, empty
+   argument of + / extend / prepend / __setitem__, given as Null() or as the class Null), m[sel] = b (list / int array /
+   bool mask), m[a:b] = b, m.min() and the read-only views ix/ax/iy/ay/get_x/get_y/get_id/_pos/_wts/pos/wts in Monitor.tla
+   (configs MC_MonNull_*, MC_MonSet_*); population-valued records, all=False (+ best), interval 0, and every other
+   reader / source / converter of munge plus monitors._load in LogFile.tla (configs MC_LogSrc_*, replayed by
+   harness/c20_sources.py): read_history from a log name / file object / monitor / solver / solver restart file / Null,
+   read_trajectories, read_monitor, _process_ids / _reduce_ids, read_support_file, read_converge_file, read_old_support_file,
+   raw_to_support / raw_to_converge / converge_to_support / old_to_new converters, _load and its measure views.
+
 Opaque ids -> concrete values is an injective renaming done here (catalogues XCAT/YCAT, container
 kinds list/tuple/ndarray/numpy scalar chosen by rotation over the emitted cases); every expected
 VALUE POSITION comes out of TLC.
@@ -24,8 +33,10 @@ VALUE POSITION comes out of TLC.
 import sys, os, io, contextlib, shutil, importlib, inspect, textwrap, json, copy
 from harness.core import Check, tier_seed, assert_repo, main_guard, ROOT
 from harness.tlc import run_tlc
+import harness.c20_sources as SRC
 
 NONE = 1000
+NULLK = 7          # Monitor.tla NullK: this python variable holds monitors.Null()
 
 
 class Machinery(Exception):
@@ -74,14 +85,20 @@ def none(v):
 # concretisation of Monitor.tla's opaque ids
 XKINDS = ("list2", "tuple3", "nd2", "scalar", "list1")
 YKINDS = ("py", "np", "vec", "ndvec", "int", "tuplevec")
+# order-preserving cost concretisations, for scripts with a GetMin (Monitor.tla: cost ids -3..3 compared as integers)
+MONO_KINDS = ("mono", "mononp", "monoint")
+MONO = [-inf, -8.9e307, -5e-324, 0.0, 5e-324, 8.9e307, inf]
 
 
 class Profile(object):
     """injective map  (x id, y id, id id) -> concrete call arguments"""
-    def __init__(self, n, np, tuple_ids_ok=True):
+    def __init__(self, n, np, tuple_ids_ok=True, mono=False, floaty=False):
         self.n = n
         self.xkind = XKINDS[n % len(XKINDS)]
         self.ykind = YKINDS[(n // len(XKINDS)) % len(YKINDS)]
+        if mono:
+            self.ykind = MONO_KINDS[(n // len(XKINDS)) % len(MONO_KINDS)]
+        self.floaty = floaty       # the catalogue's python ints (7, -2) as floats: see profile_for
         self.off = (n // 30) % NCAT
         self.idkind = "tuple" if (tuple_ids_ok and (n // 7) % 3 == 1) else "int"
         self.np = np
@@ -102,8 +119,16 @@ class Profile(object):
 
     def y(self, yv):
         np = self.np
+        if self.ykind in MONO_KINDS:
+            if not -3 <= yv <= 3:
+                raise Machinery("cost id %r outside the monotone catalogue" % (yv,))
+            if self.ykind == "monoint": return yv + 10
+            v = MONO[yv + 3]
+            if yv == 0 and self.off % 2: v = -0.0
+            return np.float64(v) if self.ykind == "mononp" else v
         i = (yv + 3 + self.off) % NCAT
         a, b = YCAT[i], YCAT[(i + 8) % NCAT]
+        if self.floaty: a, b = float(a), float(b)
         k = self.ykind
         if k == "py": return a
         if k == "np": return np.float64(a)
@@ -129,6 +154,8 @@ _SINK = io.StringIO()
 
 
 def make_monitor(M, cls, k, tag):
+    if k == NULLK:
+        return M.Null(), None
     kw = {} if k is None else {"k": k}
     if cls == "Monitor":
         return M.Monitor(**kw), None
@@ -141,14 +168,45 @@ def make_monitor(M, cls, k, tag):
 
 
 def observe(m):
+    if type(m).__name__ == "Null":        # (Null().id is Null() again: every unknown attribute is)
+        return (len(m), canon(m.x), canon(m.y), canon_ids(m._id))
     return (len(m), canon(m.x), canon(m.y), canon_ids(m.id))
 
 
-def replay_script(M, np, sc, cls, prof, report, corrupt=False):
+def check_views(m, exp):
+    """the read-only views of a real monitor against what the specification says it reports (exp = observe() shape);
+    returns the name of the first view that is not the projection it should be, or None"""
+    if type(m).__name__ == "Null":
+        return None
+    _, ex, ey, eid = exp
+    for name, fn in (("ix", lambda: canon(list(m.ix))), ("ax", lambda: canon(m.ax)),
+                     ("iy", lambda: canon(list(m.iy))), ("ay", lambda: canon(m.ay)),
+                     ("get_x", lambda: canon(m.get_x())), ("get_id", lambda: canon_ids(m.get_id())),
+                     ("get_y", lambda: canon(m.get_y()))):
+        try:
+            g = fn()
+        except Exception as ex_:
+            return "%s-raises-%s" % (name, type(ex_).__name__)
+        if g != (eid if name == "get_id" else ex if name.endswith("x") else ey):
+            return name
+    for name in ("_pos", "_wts", "pos", "wts"):        # made without npts: no measure structure
+        try:
+            if getattr(m, name) is not None: return name
+        except Exception as ex_:
+            return "%s-raises-%s" % (name, type(ex_).__name__)
+    return None
+
+
+def replay_script(M, np, sc, cls, prof, report, corrupt=False, views=False):
     """run one TLC script on real monitors of class `cls`; compare every object after every step.
     report(key, detail, what) is called for the first disagreement of the script."""
     ks = [none(v) for v in sc["k"]]
     files = []
+    isnull = lambda o: type(o).__name__ == "Null"
+
+    def arg(o, step):
+        """a monitor passed as ARGUMENT: the Null object goes in as the instance Null() or as the class Null"""
+        return M.Null if (isnull(o) and (prof.n + step) % 2 == 0) else o
     heap, slots = [], [0, 1]
     for j, k in enumerate(ks):
         m, fn = make_monitor(M, cls, k, "m%d" % j)
@@ -187,15 +245,24 @@ def replay_script(M, np, sc, cls, prof, report, corrupt=False):
                     elif name in ITEM_FORMS:
                         tgt = slots[a - 1]
                         item = heap[tgt][concrete_item(np, name, i, prof.n + step)]
+                    elif name == "min":
+                        tgt = slots[a - 1]
+                        item = heap[tgt].min()
                     elif name == "add":
-                        new = heap[slots[a - 1]] + heap[slots[b - 1]]
+                        new = heap[slots[a - 1]] + arg(heap[slots[b - 1]], step)
                         heap.append(new); slots[t - 1] = len(heap) - 1; tgt = len(heap) - 1
                     elif name == "extend":
-                        heap[slots[a - 1]].extend(heap[slots[b - 1]]); tgt = slots[a - 1]
+                        heap[slots[a - 1]].extend(arg(heap[slots[b - 1]], step)); tgt = slots[a - 1]
                     elif name == "prepend":
-                        heap[slots[a - 1]].prepend(heap[slots[b - 1]]); tgt = slots[a - 1]
+                        heap[slots[a - 1]].prepend(arg(heap[slots[b - 1]], step)); tgt = slots[a - 1]
                     elif name == "setitem":
-                        heap[slots[a - 1]][i] = heap[slots[b - 1]]; tgt = slots[a - 1]
+                        heap[slots[a - 1]][i] = arg(heap[slots[b - 1]], step); tgt = slots[a - 1]
+                    elif name == "setslice":
+                        if none(sl[2]) is not None:
+                            raise Machinery("setslice with a step: %r" % (sl,))
+                        heap[slots[a - 1]][slice(none(sl[0]), none(sl[1]))] = arg(heap[slots[b - 1]], step); tgt = slots[a - 1]
+                    elif name in SET_FORMS:
+                        heap[slots[a - 1]][concrete_index(np, name[2:], sl, prof.n + step)] = heap[slots[b - 1]]; tgt = slots[a - 1]
                     else:
                         raise Machinery("unknown op %r" % name)
             except Machinery:
@@ -207,8 +274,8 @@ def replay_script(M, np, sc, cls, prof, report, corrupt=False):
                 return False
             if tgt != obj - 1:
                 raise Machinery("harness/spec object numbering differs: %s vs %s in %s" % (tgt, obj - 1, op))
-            if name in ITEM_FORMS:
-                # m[i]: the pair (x, y) of the record the specification names (c = <<x, y, id>>)
+            if name in ITEM_FORMS or name == "min":
+                # m[i] / m.min(): the pair (x, y) of the record the specification names (c = <<x, y, id>>)
                 e = (prof.cx(c[0]), prof.cy(c[1]))
                 if corrupt and step == len(sc["s"]) - 1:
                     e = (e[0], canon(12345.5))
@@ -221,7 +288,7 @@ def replay_script(M, np, sc, cls, prof, report, corrupt=False):
                     report("mon:%s:%s:%s" % (cls, name, what),
                            {"kind": "script", "cls": cls, "profile": prof.n, "concretisation": prof.describe(),
                             "script": sc, "step": step, "index": i, "expected": e, "got": g},
-                           "%s k=%s step %d: m[%s] (%s) spec says (x,y)=%s, mystic gives %s" % (cls, ks, step, i, name, e, g[1:] if g[0] == 2 else g))
+                           "%s k=%s step %d: m[%s] (%s) spec says (x,y)=%s, mystic gives %s" % (cls, ks, step, i if name != "min" else "argmin", name, e, g[1:] if g[0] == 2 else g))
                     return False
             exp = (len(recs), tuple(prof.cx(r[0]) for r in recs), tuple(prof.cy(r[1]) for r in recs),
                    canon_ids([prof.id(r[2]) for r in recs]))
@@ -262,6 +329,17 @@ def replay_script(M, np, sc, cls, prof, report, corrupt=False):
                 else: snap[o] = r
             # i-th record through integer indexing (first and last) on the written object
             m = heap[tgt]
+            if views:
+                bad = check_views(m, expect[tgt])
+                if bad:
+                    report("mon:%s:view-%s" % (cls, bad),
+                           {"kind": "script", "cls": cls, "profile": prof.n, "script": sc, "step": step, "views": True,
+                            "view": bad, "expected": expect[tgt]},
+                           "%s k=%s after step %d %s: view %s of object %d is not the projection of what the monitor reports %s"
+                           % (cls, ks, step, op[:7], bad, tgt + 1, expect[tgt][1:]))
+                    return False
+            if isnull(m):
+                continue
             if recs:
                 for ix in (0, -1):
                     try:
@@ -314,7 +392,8 @@ class _Guard(object):
 
 INDEX_FORMS = ("ilist", "iarray", "imask", "lmask", "tlist", "tarray", "tmask")     # Monitor.tla: IndexForms
 ITEM_FORMS = ("item", "npitem")                                                      # Monitor.tla: ItemForms
-COMBINE = ("add", "extend", "prepend", "setitem", "slice", "tslice") + INDEX_FORMS
+SET_FORMS = ("s_ilist", "s_iarray", "s_imask", "s_lmask")                            # Monitor.tla: SetForms
+COMBINE = ("add", "extend", "prepend", "setitem", "setslice", "slice", "tslice") + INDEX_FORMS + SET_FORMS
 
 
 def concrete_index(np, form, sel, rot):
@@ -344,12 +423,17 @@ def profile_for(n, np, cls, sc):
     """concretisation of one (script, class) replay.  Tuple-valued ids are not used with the verbose classes
     (they print ids) nor in scripts that index with a list/array/tuple: that branch of __getitem__ builds
     numpy.array(self._id), which cannot hold a ragged mix of None and tuples (documented ids are int or None)"""
-    fancy = any(op[0] in INDEX_FORMS or op[0] == "tslice" for op in sc["s"])
-    return Profile(n, np, tuple_ids_ok=not cls.startswith("Verbose") and not fancy)
+    fancy = any(op[0] in INDEX_FORMS or op[0] in SET_FORMS or op[0] == "tslice" for op in sc["s"])
+    mono = any(op[0] == "min" for op in sc["s"])
+    # m[sel] = b goes through numpy.array(self._y): a cost column that holds python ints ONLY is an integer array and
+    # would truncate float costs assigned into it (numpy dtype inference; __setitem__ is not named by C20): scripts with
+    # such an assignment record float costs throughout (or ints throughout: kinds "int" / "monoint")
+    floaty = any(op[0] in SET_FORMS for op in sc["s"])
+    return Profile(n, np, tuple_ids_ok=not cls.startswith("Verbose") and not fancy, mono=mono, floaty=floaty)
 
 
 def script_nontrivial(sc):
-    return any(op[0] in COMBINE and len(op[8]) > 0 for op in sc["s"])
+    return any((op[0] in COMBINE or op[0] == "min") and len(op[8]) > 0 for op in sc["s"])
 
 
 # ----------------------------------------------------------------------------------------------
@@ -436,15 +520,20 @@ def replay_file(M, G, np, st, j, report, corrupt=False):
     try:
         kw = {} if k is None else {"k": k}
         _SINK.seek(0); _SINK.truncate()
-        with contextlib.redirect_stdout(_SINK):
-            if cls == "LoggingMonitor":
-                mon = M.LoggingMonitor(st["ival"], logfn, new=True, **kw)
-            else:
-                mon = M.VerboseLoggingMonitor(st["ival"], 1, 1, logfn, new=True, **kw)
-            for rec in st["traj"]:
-                x, y, idv = conc_record(np, rec, st["dim"], st["yvec"], xk, yk)
-                if idv is None: mon(x, y)
-                else: mon(x, y, idv)
+        calls = [conc_record(np, rec, st["dim"], st["yvec"], xk, yk) for rec in st["traj"]]
+        try:
+            with contextlib.redirect_stdout(_SINK):
+                if cls == "LoggingMonitor":
+                    mon = M.LoggingMonitor(st["ival"], logfn, new=True, **kw)
+                else:
+                    mon = M.VerboseLoggingMonitor(st["ival"], 1, 1, logfn, new=True, **kw)
+                for x, y, idv in calls:
+                    if idv is None: mon(x, y)
+                    else: mon(x, y, idv)
+        except Exception as ex:
+            report("mon:%s:call:raises-%s:%s" % (cls, type(ex).__name__, tag), dict(info, error=repr(ex)),
+                   "%s(interval=%s, k=%s) called with x:%s y:%s traj=%s raised %r" % (cls, st["ival"], k, xk, yk, st["traj"], ex))
+            return False
         # ---- three-column log
         e_it, e_par, e_cost = st["log"]
         exp = (mapiter(e_it), mapvals(e_par, XCAT), mapvals(e_cost, YCAT))
@@ -518,7 +607,16 @@ def tasks_for(tier):
         for i in (3, 12):
             T.append(dict(part="script", module="mon/MC_Monitor", cfg="MC_MonScript_w0f3.cfg", env={"C20_KLO": i, "C20_KHI": i}, classes=1))
         T.append(dict(part="file", module="mon/MC_LogFile", cfg="MC_LogFile_quick.cfg", env={"C20_OSTEP": 3}))
+        T.append(dict(part="sources", module="mon/MC_LogFile", cfg="MC_LogSrc_quick.cfg", env={"C20_OLO": 5, "C20_OHI": 5}))
+        T.append(dict(part="null", module="mon/MC_Monitor", cfg="MC_MonNull_quick.cfg", env={"C20_KLO": 1, "C20_KHI": 3}, classes=2, views=True))
+        T.append(dict(part="set", module="mon/MC_Monitor", cfg="MC_MonSet_quick.cfg", env={"C20_KLO": 2, "C20_KHI": 2}, classes=1, views=True))
+        T.append(dict(part="set", module="mon/MC_Monitor", cfg="MC_MonSet_f1.cfg", env={"C20_KLO": 1, "C20_KHI": 6}, classes=2, views=True))
     else:
+        for i in (1, 4, 7):
+            T.append(dict(part="null", module="mon/MC_Monitor", cfg="MC_MonNull_thorough.cfg", env={"C20_KLO": i, "C20_KHI": i + 2}, classes=2, views=True))
+        for i in range(1, 7):
+            T.append(dict(part="set", module="mon/MC_Monitor", cfg="MC_MonSet_quick.cfg", env={"C20_KLO": i, "C20_KHI": i}, classes=2, views=True))
+        T.append(dict(part="set", module="mon/MC_Monitor", cfg="MC_MonSet_f1.cfg", env={"C20_KLO": 1, "C20_KHI": 6}, classes=4, views=True))
         for i in range(1, 17):
             T.append(dict(part="script", module="mon/MC_Monitor", cfg="MC_MonScript_w4f3.cfg", env={"C20_KLO": i, "C20_KHI": i}, classes=2))
         for i in range(1, 17, 2):
@@ -533,12 +631,16 @@ def tasks_for(tier):
             for fk in (NONE, 1, 2, -1):
                 T.append(dict(part="file", module="mon/MC_LogFile", cfg="MC_LogFile_thorough.cfg",
                               env={"C20_OLO": o, "C20_OHI": o + 1, "C20_FK": fk}))
+        for o, fk in ((2, NONE), (7, 1), (11, 2), (14, -1)):
+            T.append(dict(part="sources", module="mon/MC_LogFile", cfg="MC_LogSrc_thorough.cfg",
+                          env={"C20_OLO": o, "C20_OHI": o, "C20_FK": fk}))
     for n, t in enumerate(T):
         t["n"] = n
     return T
 
 
 CLASSES = ("Monitor", "VerboseMonitor", "LoggingMonitor", "VerboseLoggingMonitor")
+SCRIPT_PARTS = ("script", "slice", "index", "null", "set")
 
 
 def gen(task):
@@ -567,7 +669,7 @@ def _replay(task, res, M, G, np, seed, corrupt, max_viol, guard, stop_after=None
         else:
             out["more"][key] = out["more"].get(key, 0) + 1
     printed = res["printed"]
-    if task["part"] in ("script", "slice", "index"):
+    if task["part"] in SCRIPT_PARTS:
         ncls = task["classes"]
         for j, sc in enumerate(printed):
             g = j + 1000 * task["n"] + seed
@@ -581,7 +683,8 @@ def _replay(task, res, M, G, np, seed, corrupt, max_viol, guard, stop_after=None
                 elif ncls == 2: cls = CLASSES[1 + g % 3]
                 else: cls = CLASSES[1 + (g + c) % 3]
                 prof = profile_for(g + 17 * c, np, cls, sc)
-                replay_script(M, np, sc, cls, prof, report, corrupt=corrupt and j == len(printed) // 2 and c == 0)
+                replay_script(M, np, sc, cls, prof, report, corrupt=corrupt and j == len(printed) // 2 and c == 0,
+                              views=task.get("views", False))
                 out["evaluations"] += 1
                 out["kinds"][cls] = out["kinds"].get(cls, 0) + 1
             out["traces"] += 1
@@ -593,6 +696,23 @@ def _replay(task, res, M, G, np, seed, corrupt, max_viol, guard, stop_after=None
             sc = printed[(len(printed) * 2) // 3]
             out["samples"].append({"k_of_the_two_monitors": sc["k"],
                                    "script[op,t,a,b,i,slice,call(x,y,id),object,reported records after]": sc["s"]})
+    elif task["part"] == "sources":
+        H = sys.modules[__name__]
+        for j, st in enumerate(printed):
+            g = j + seed
+            guard.tick()
+            if stop_after is not None and sum(seen.values()) >= stop_after:
+                break
+            SRC.replay_sources(H, M, G, np, st, g, report, corrupt=corrupt and j == len(printed) - 1)
+            out["evaluations"] += 1
+            out["traces"] += 1
+            if SRC.nontrivial(st):
+                out["nontrivial"] += 1
+            for kk in SRC.kinds_count(st, g):
+                out["kinds"][kk] = out["kinds"].get(kk, 0) + 1
+        if printed:
+            st = printed[(len(printed) * 3) // 5]
+            out["samples"].append({"sources state (LogFile.tla Basic)": st["b"], "expected from the other sources (More)": st["m"]})
     else:
         for j, st in enumerate(printed):
             g = j + seed
@@ -654,7 +774,18 @@ RULE = ("Monitor.tla: every operation script (Call/Slice/Index/+/extend/prepend/
         "dim 1..3, scalar/vector cost, ids None/7/8, interval 1..3, k, 16 catalogue offsets) is written by the real "
         "LoggingMonitor / munge.write_*_file and read back. evaluations = (script, class) and trajectory replays; "
         "a script is non-trivial if some +/extend/prepend/slice/index/__setitem__ yields a non-empty monitor, a trajectory "
-        "if it has >= 1 record; each emitted script/trajectory is a distinct TLC state and counted once")
+        "if it has >= 1 record; each emitted script/trajectory is a distinct TLC state and counted once. Grown: MonNull = the "
+        "same scripts (+ m[a:b] = b) with one variable holding monitors.Null() (3 / 9 placements of Null x k), warm-up 3 / 4 calls "
+        "+ 2 free operations; MonSet = m[sel] = b for every list / int array of 1..2 indices in -3..2 and every bool mask (array / "
+        "list) of length 2..3, m[a:b] = b for 7 bounds, m.min(), m[i] = b, extend on monitors of 3+2 and 2+1 records, 1 and 2 free "
+        "operations, with the views ix/ax/iy/ay/get_x/get_y/get_id/_pos/_wts/pos/wts of the written object compared after every "
+        "operation; LogSrc = every trajectory (<= 3 records, dim 1,2 / 1,2,4, plain or population of 1 / 2 members, scalar / vector "
+        "cost, ids None/7(/8), interval 0,1,2 / 0,1,3, all True/False with best 0/1, k neutral and scaling, 1 catalogue offset per "
+        "run) written by Logging/VerboseLoggingMonitor and read back through logfile_reader, read_trajectories, read_history (log "
+        "name, file object, monitor, solver, every 8th: the solver's restart file, every 16th: Null()), read_monitor, _process_ids, "
+        "_reduce_ids, and for interval 1 / all=True also write_raw/support/converge_file -> read_raw_file, read_history, "
+        "read_support_file, read_converge_file, the four converters, the old support format, monitors._load (+ npts measure views "
+        "for dim 2 / 4)")
 
 
 def new_check(a):
@@ -703,7 +834,7 @@ def explore(ck, a):
             ctx = mp.get_context("fork")
             with ctx.Pool(jobs, maxtasksperchild=1) as pool:
                 # big tasks first
-                order = sorted(tasks, key=lambda t: (t["part"] not in ("script", "index"), t["n"]))
+                order = sorted(tasks, key=lambda t: (t["part"] not in ("script", "index", "set"), t["n"]))
                 for task, res, out in pool.imap_unordered(_work, [(t, a.seed) for t in order]):
                     absorb(ck, task, res, out)
         else:
@@ -712,10 +843,26 @@ def explore(ck, a):
                 absorb(ck, task, res, out)
     finally:
         shutil.rmtree(TMP, ignore_errors=True)
-    missing = [o for o in ("call", "slice", "tslice", "add", "extend", "prepend", "setitem") + INDEX_FORMS + ITEM_FORMS
+    missing = [o for o in ("call", "slice", "tslice", "add", "extend", "prepend", "setitem", "setslice", "min") + INDEX_FORMS + ITEM_FORMS + SET_FORMS
                if not ck.extra.get("operations_replayed", {}).get(o)]
     if missing:
         raise RuntimeError("vacuous run: operations never emitted by TLC: %s" % missing)
+    kinds = ck.extra.get("objects_and_kinds", {})
+    missing = [kk for kk in ("rec:plain", "rec:pop1", "rec:pop2", "rec:pop2:best1", "interval:0", "interval:1") if not kinds.get(kk)]
+    if missing:
+        raise RuntimeError("vacuous run: record shapes / intervals never emitted by TLC: %s" % missing)
+    ck.extra["observations"] = [
+        "monitors._load(path, monitor, verbose=True) records the file INTO the given monitor and then extends the monitor with "
+        "itself: every record twice when the monitor's k is None; with k set monitor.extend(monitor) iterates the list it is "
+        "appending to and never terminates (MemoryError). With verbose=False the given monitor is ignored and a new one is "
+        "returned. Not bound (undocumented arguments of a private helper without callers); not a violation",
+        "Monitor.__setitem__ with a list/array index assigns through numpy.array(self._y) / numpy.array(self._id): a cost "
+        "column of python ints only silently truncates float costs assigned into it, an all-integer id column raises "
+        "TypeError on a None id, an empty selection with an empty/Null argument raises a shape error. __setitem__ is not "
+        "named by C20; the scripts stay inside the element-wise, dtype-compatible cases",
+        "munge._process_ids(id, 0) returns the bare id, so read_history(solver with an id, iter=True) on an empty history "
+        "returns that integer instead of an id list; _reduce_ids looks at the FIRST entry only to tell (iteration,) from "
+        "(iteration, id) tuples, so on a log whose first record has no id but a later one has, every id comes back None"]
     ck.extra["catalogue_x"] = [repr(v) for v in XCAT]
     ck.extra["catalogue_y"] = [repr(v) for v in YCAT]
     ck.assumptions = [
@@ -735,8 +882,26 @@ def explore(ck, a):
         "numpy.array(self._id), which raises on a mix of None and tuple-valued ids and returns tuple ids as lists",
         "equality is exact on the double (nan == nan, -0.0 != 0.0, int 7 == 7.0); containers compared by structure "
         "(list/tuple/ndarray interchangeable); a scalar parameter x is read back from a log as [x]",
-        "read_support_file/read_converge_file (which re-apply the layout conversion), CustomMonitor, Null, _info, "
-        "_npts/wts/pos and monitors fed by solvers are not covered"]
+        "Null: as receiver every operation is a no-op and a slice/index returns Null; Null() + m (TypeError) and m[sel] = Null "
+        "with a list/array selection (numpy shape error) are not enabled; the harness passes a Null ARGUMENT alternately as the "
+        "instance Null() and as the class Null",
+        "m[sel] = b is modelled where numpy assignment is element-wise: len(b) = number of selected positions >= 1, no repeated "
+        "position, equal effective k, and ids that fit the dtype numpy infers (an all-integer id column cannot take None: "
+        "TypeError in the code); scripts with such an assignment record float costs throughout (a cost column of python ints "
+        "only is an integer array and would truncate floats assigned into it); m[a:b] = b only with step None; m.min() on "
+        "non-empty monitors with scalar, comparable costs (order-preserving catalogue -inf, -8.9e307, -5e-324, +-0.0, 5e-324, "
+        "8.9e307, inf); views _pos/_wts/pos/wts are None without npts and compared with TLC's index lists / projections on "
+        "monitors loaded from a support file with npts (equal block sizes only, as tools.measure_indices assumes)",
+        "all=False is bound for population-valued records only (on a plain record the code would index into the vector); "
+        "interval 0 / None means never; population members are vectors (a population of scalars is a plain vector)",
+        "read_history(solver) is bound for k in {None, 1}: a solver's energy_history is its monitor's STORED cost by design; an "
+        "empty trajectory may come back with no id list at all (None, [], a solver's bare id)",
+        "monitors._load is bound on support-layout files (write_support_file, raw_to_support_converter output); on a raw file of "
+        "plain records it raises TypeError by construction; only _load(path) is bound: the (monitor, verbose) arguments of "
+        "this private helper are undocumented (see observations)",
+        "klepto archives / caches and legacydata datasets as read_history sources are importable here (klepto 0.2.8) but not "
+        "bound: they are keyed mappings / point sets, not recorded sequences (no order, ids or duplicates to give back); "
+        "CustomMonitor and _info are not covered"]
 
 
 # ----------------------------------------------------------------------------------------------
@@ -759,9 +924,11 @@ def selftest(a):
     os.makedirs(TMP, exist_ok=True)
     results = [(t, gen(t)) for t in tasks]
 
-    def run(corrupt=False, stop_after=None):
+    def run(corrupt=False, stop_after=None, parts=None):
         keys = {}
         for t, res in results:
+            if parts is not None and t["part"] not in parts:
+                continue
             out = replay(t, res, M, G, np, seed=a.seed, corrupt=corrupt, stop_after=stop_after)
             for key, _, _ in out["viols"]:
                 keys[key] = keys.get(key, 0) + 1
@@ -903,6 +1070,105 @@ def selftest(a):
     def m_int_item_cost_scaled():
         _patch_source(M.Monitor, "__getitem__", "return self.x[y],self.y[y]", "return self.x[y],self._y[y]", M.__dict__)
 
+    # ---- Null, m[sel] = b, min(), views; interval / all=False; the other sources, converters, _load
+    MON, LOG = ("null", "set"), ("file", "sources")
+
+    def m_null_extend_appends():
+        # a Null argument of extend is taken for a monitor that holds one (zero) record
+        def extend(self, monitor, _orig=M.Monitor.extend):
+            if T.isNull(monitor):
+                monitor = M.Monitor(); monitor([0.0], 0.0)
+            return _orig(self, monitor)
+        M.Monitor.extend = extend
+
+    def m_setitem_null_noop():
+        _patch_source(M.Monitor, "__setitem__", "y = Monitor()\n", "return\n", M.__dict__)
+
+    def m_add_null_gives_empty():
+        # (not "returns self": with two variables on one object a later m.extend(m) would never terminate)
+        def __add__(self, monitor, _orig=M.Monitor.__add__):
+            if T.isNull(monitor):
+                return self[0:0]
+            return _orig(self, monitor)
+        M.Monitor.__add__ = __add__
+
+    def m_setsel_reversed():
+        _patch_source(M.Monitor, "__setitem__", "x[i] = y._y\n", "x[i] = y._y[::-1]\n", M.__dict__)
+
+    def m_min_over_stored():
+        M.Monitor.min = lambda self: self[int(np.argmin(np.array(self._y)))]
+
+    def m_ay_not_unscaled():
+        M.Monitor.ay = property(lambda self: np.asarray(self._y))
+
+    def m_interval_off_by_one():
+        _patch_source(M.LoggingMonitor, "__call__", "int((self._step-1) % self._yinterval) == 0", "int(self._step % self._yinterval) == 0", M.__dict__)
+
+    def m_best_is_worst():
+        _patch_source(M.LoggingMonitor, "__call__", 'y = "%s" % self._ik(self._y[-1][best], k)', 'y = "%s" % self._ik(self._y[-1][best-1], k)', M.__dict__)
+
+    def m_best_x_ignored():
+        _patch_source(M.LoggingMonitor, "__call__", "xb = self._x[-1][best]", "xb = self._x[-1][0]", M.__dict__)
+
+    def m_read_monitor_drops_last():
+        def read_monitor(mon, id=False, _orig=G.read_monitor):
+            r = _orig(mon, id)
+            return tuple(v[:-1] for v in r)
+        G.read_monitor = read_monitor
+
+    def m_read_monitor_stored_cost():
+        _patch_source(G, "read_monitor", "energy = mon.y[:]", "energy = mon._y[:]", G.__dict__)
+
+    def m_read_trajectories_stored_cost():
+        _patch_source(G, "read_trajectories", "param, cost = source.x, source.y", "param, cost = source.x, source._y", G.__dict__)
+
+    def m_converter_swaps_columns():
+        _patch_source(G, "raw_to_support_converter", "steps, energy = read_raw_file(file_in)",
+                      "steps, energy = read_raw_file(file_in); steps = [s[::-1] for s in steps]", G.__dict__)
+
+    def m_converter_double_conversion():
+        # (the defect repaired in /repo e2b2202) the converter reads its converge-format input with read_converge_file,
+        # which has already reverted the layout
+        src = inspect.getsource(G.converge_to_support_converter)
+        old = "steps, energy = read_raw_file(file_in)"
+        if old not in src:
+            raise RuntimeError("selftest: converge_to_support_converter does not read its input with read_raw_file")
+        _patch_source(G, "converge_to_support_converter", old, "steps, energy = read_converge_file(file_in)", G.__dict__)
+
+    def m_reduce_ids_iteration():
+        _patch_source(G, "_reduce_ids", "ids = [i[-1] for i in ids]", "ids = [i[0] for i in ids]", G.__dict__)
+
+    def m_load_last_member():
+        _patch_source(M, "_load", "(list(zip(*i))[0] for i in zip(*params))", "(list(zip(*i))[-1] for i in zip(*params))", M.__dict__)
+
+    def m_solver_history_monitor_ids():
+        # read_history(solver) numbers the records per monitor id instead of using the solver's one id
+        _patch_source(G, "read_history", "if iter: ids = _process_ids(source.id, len(cost))\n        else:",
+                      "if iter: ids = _process_ids(source._stepmon.id or None, len(cost))\n        else:", G.__dict__)
+
+    def m_read_support_file_plain():
+        # read_support_file returns the file's params as they are
+        G.read_support_file = lambda file_in, iter=False: ((lambda d: (d[0], (d[1], d[2])))(G.read_raw_file(file_in, True)) if iter
+                                                          else tuple(G.read_raw_file(file_in)))
+
+    new_mutants = [("extend(Null) appends a record", m_null_extend_appends, MON),
+                   ("m[i] = Null is a no-op (record not removed)", m_setitem_null_noop, MON),
+                   ("m + Null gives an empty monitor", m_add_null_gives_empty, MON),
+                   ("m[sel] = b assigns b's costs in reverse order", m_setsel_reversed, MON),
+                   ("min() minimises the stored (k-scaled) cost", m_min_over_stored, MON),
+                   ("view ay is the stored cost (k not divided out)", m_ay_not_unscaled, MON),
+                   ("LoggingMonitor interval off by one (writes calls 1, 1+interval, ...)", m_interval_off_by_one, LOG),
+                   ("all=False writes the cost of another member than `best`", m_best_is_worst, LOG),
+                   ("all=False writes the parameters of member 0 whatever `best`", m_best_x_ignored, LOG),
+                   ("read_monitor drops the last record", m_read_monitor_drops_last, LOG),
+                   ("read_monitor returns the stored (k-scaled) cost", m_read_monitor_stored_cost, LOG),
+                   ("read_trajectories(monitor) returns the stored cost", m_read_trajectories_stored_cost, LOG),
+                   ("raw_to_support_converter reverses the coordinates / members of every record", m_converter_swaps_columns, LOG),
+                   ("converge_to_support_converter converts what read_converge_file already reverted", m_converter_double_conversion, LOG),
+                   ("_reduce_ids returns the iteration numbers", m_reduce_ids_iteration, LOG),
+                   ("_load records the last member of a population", m_load_last_member, LOG),
+                   ("read_history(solver) takes the ids of the monitor", m_solver_history_monitor_ids, LOG),
+                   ("read_support_file does not convert", m_read_support_file_plain, LOG)]
     mutants = [("list/array index: new monitor built from the public cost array self.ay (k divided out)", m_list_index_unscaled),
                ("1-tuple index: new monitor built from self.ay", m_tuple_index_unscaled),
                ("list/array index sorts the selection", m_list_index_sorted),
@@ -920,11 +1186,11 @@ def selftest(a):
                ("slice drops the last selected record", m_slice_drops_last),
                ("__call__ stores the cost without k", m_call_forgets_k),
                ("extend loses the argument's ids", m_extend_ids_lost),
-               ("log writer uses a two-space separator", m_log_separator),
-               ("log writer prints costs with %.6g", m_log_precision),
-               ("log writer numbers iterations from 1", m_log_iteration_from_one),
-               ("support layout not transposed", m_support_not_transposed),
-               ("write_raw_file rounds costs to 12 digits", m_rawfile_cost_repr)]
+               ("log writer uses a two-space separator", m_log_separator, LOG),
+               ("log writer prints costs with %.6g", m_log_precision, LOG),
+               ("log writer numbers iterations from 1", m_log_iteration_from_one, LOG),
+               ("support layout not transposed", m_support_not_transposed, LOG),
+               ("write_raw_file rounds costs to 12 digits", m_rawfile_cost_repr, LOG)] + new_mutants
     # every run in its own forked process: mutations cannot leak, and the runs go in parallel
     import multiprocessing as mp
     ctx = mp.get_context("fork")
@@ -938,7 +1204,9 @@ def selftest(a):
                 try:
                     # (a mutant that is noticed is noticed often: each TLC run's output is left after 300
                     # disagreements; a mutant that is MISSED has been replayed on everything)
-                    keys = run(stop_after=300)
+                    # (a mutant of the monitor operations is replayed on the script runs, one of the log / file code on the
+                    # trajectory runs: the other half cannot notice it)
+                    keys = run(stop_after=300, parts=mutants[i][2] if len(mutants[i]) > 2 else SCRIPT_PARTS)
                 except Machinery:
                     raise
                 except Exception as ex:
@@ -998,9 +1266,11 @@ def replay_artifact(a):
         if d.get("kind") == "script":
             cls = d["cls"]
             prof = profile_for(d["profile"], np, cls, d["script"])
-            replay_script(M, np, d["script"], cls, prof, rep)
+            replay_script(M, np, d["script"], cls, prof, rep, views=bool(d.get("views")))
         elif d.get("kind") == "file":
             replay_file(M, G, np, d["state"], d["j"], rep)
+        elif d.get("kind") == "sources":
+            SRC.replay_sources(sys.modules[__name__], M, G, np, d["state"], d["j"], rep)
         else:
             print("artefact has no replayable case (key %s)" % art.get("key")); return 2
     finally:
